@@ -837,6 +837,17 @@ class JavaFE:
         if cn in ('java/lang/Byte', 'java/lang/Short', 'java/lang/Integer', 'java/lang/Long', 'java/lang/Character', 'java/lang/Boolean',
                   'java/lang/Float', 'java/lang/Double', 'java/lang/Number'):
             kind = cn.split('/')[-1]
+            if mn in ('parseUnsignedLong', 'parseLong', 'parseInt', 'parseUnsignedInt', 'parseShort', 'parseByte') and recv is None and isinstance(a[0], JStr):
+                txt = bytes(conc(b) for b in a[0].bs).decode()
+                w = 64 if 'Long' in mn else (32 if 'Int' in mn else (16 if 'Short' in mn else 8))
+                try:
+                    v = int(txt, conc(a[1]) if len(a) > 1 else 10)
+                except ValueError:
+                    raise JThrow(self.mkexc('java/lang/NumberFormatException', 'For input string: "%s"' % txt))
+                lo, hi = ((0, (1 << w) - 1) if 'Unsigned' in mn else (-(1 << (w - 1)), (1 << (w - 1)) - 1))
+                if not lo <= v <= hi:
+                    raise JThrow(self.mkexc('java/lang/NumberFormatException', 'out of range: "%s"' % txt))
+                return z3.BitVecVal(v & ((1 << w) - 1), w if w == 64 else 32) if w == 64 else ((v + (1 << 31)) % (1 << 32) - (1 << 31))
             if mn == 'valueOf' and recv is None:
                 return JBox(kind, a[0])
             if mn.endswith('Value'):
